@@ -322,6 +322,16 @@ func c06Run(r *core.Run) {
 				}
 			}
 		}
+		// every grammar character as the first, the last and the only character of an expression (the token
+		// sequences of the quick tier end one token short of "/{a:/,/}")
+		for _, c := range chars[:15] {
+			for _, v := range []string{c, "x" + c, c + "x", "x" + c + "x"} {
+				for _, form := range []string{"/{a:/%s/}", "/{a: /%s/}", "/{a: /%s/}/b", "/{a: /%s/, b: /%s/}"} {
+					c06Report(l, p, strings.ReplaceAll(form, "%s", v), 1<<30, 0)
+					l.Extra["expression_edge_characters"]++
+				}
+			}
+		}
 		r.Merge(l)
 	}
 	// (a) all strings: sharded by the first two characters
